@@ -72,3 +72,113 @@ def build_pyr(tree):
 
 
 TARGETS = {'TC03pyr': {'file': 'seg/pyramid.py', 'build': build_pyr}}
+
+
+# ---------------------------------------------------------------------------------------------- get_volume slicing
+def _slice3(node, what):
+    """(lower, upper) expression pairs of a 3-axis subscript `x[s0, s1, s2]`; axis 0 must be `:`."""
+    if not (isinstance(node, ast.Subscript) and isinstance(node.slice, ast.Tuple) and len(node.slice.elts) == 3
+            and all(isinstance(e, ast.Slice) and e.step is None for e in node.slice.elts)):
+        raise Unsupported(f'{what}: not a subscript with three plain slices')
+    s0, s1, s2 = node.slice.elts
+    if s0.lower is not None or s0.upper is not None:
+        raise Unsupported(f'{what}: first axis is not `:`')
+    return s1, s2
+
+
+def _volume_slicing(tree, qual, prefix):
+    fn = find_func(tree, qual)
+    branches = [n for n in ast.walk(fn) if isinstance(n, ast.If) and ast.unparse(n.test) == 'self.is_tiled'
+                and any(isinstance(s, ast.Assign) and ast.unparse(s.targets[0]) == 'affine' for s in n.body)
+                and any(isinstance(s, ast.Assign) and ast.unparse(s.targets[0]) == 'affine' for s in n.orelse)]
+    if len(branches) != 1:
+        raise Unsupported(f'{qual}: `if self.is_tiled:` with an `affine = ...` in both branches not found')
+    iff = branches[0]
+    params = [('row_start', 'int'), ('row_end', 'int'), ('column_start', 'int'), ('column_end', 'int')]
+
+    def affine_sub(stmts, what):
+        a = [s for s in stmts if isinstance(s, ast.Assign) and ast.unparse(s.targets[0]) == 'affine']
+        v = a[-1].value
+        if not (isinstance(v, ast.Attribute) and v.attr == 'affine' and isinstance(v.value, ast.Subscript)
+                and ast.unparse(v.value.value) == 'volume_geometry'):
+            raise Unsupported(f'{what}: affine is not volume_geometry[...].affine')
+        return a[-1], v.value
+
+    def ret(exprs):
+        r = ast.Return(value=ast.Tuple(elts=list(exprs), ctx=ast.Load()))
+        ast.fix_missing_locations(r)
+        return r
+    # tiled branch: volume_geometry[:, lo1:, lo2:]
+    st_t, sub_t = affine_sub(iff.body, f'{qual} tiled branch')
+    s1, s2 = _slice3(sub_t, f'{qual} tiled branch')
+    if s1.lower is None or s2.lower is None or s1.upper is not None or s2.upper is not None:
+        raise Unsupported(f'{qual} tiled branch: expected volume_geometry[:, a:, b:]')
+    t1 = translate_block([ret([s1.lower, s2.lower])], prefix + 'TiledGeomLower', params, {},
+                         doc=f'`{qual}`, tiled branch: lower bounds (rows, columns) of the slice taken of the geometry')
+    # stacked branch: array = array[:, a:b, c:d]; affine = volume_geometry[:, a:b, c:d].affine
+    st_s, sub_s = affine_sub(iff.orelse, f'{qual} stacked branch')
+    g1, g2 = _slice3(sub_s, f'{qual} stacked branch (geometry)')
+    arrs = [s for s in iff.orelse if isinstance(s, ast.Assign) and ast.unparse(s.targets[0]) == 'array'
+            and isinstance(s.value, ast.Subscript) and ast.unparse(s.value.value) == 'array']
+    if len(arrs) != 1:
+        raise Unsupported(f'{qual} stacked branch: array = array[...] not found')
+    a1, a2 = _slice3(arrs[0].value, f'{qual} stacked branch (array)')
+    for s in (g1, g2, a1, a2):
+        if s.lower is None or s.upper is None:
+            raise Unsupported(f'{qual} stacked branch: expected explicit bounds a:b')
+    t2 = translate_block([ret([g1.lower, g1.upper, g2.lower, g2.upper])], prefix + 'StackGeomSlice', params, {},
+                         doc=f'`{qual}`, stacked branch: (row lower, row upper, column lower, column upper) of the slice '
+                             'taken of the geometry')
+    t3 = translate_block([ret([a1.lower, a1.upper, a2.lower, a2.upper])], prefix + 'StackArraySlice', params, {},
+                         doc=f'`{qual}`, stacked branch: the same bounds of the slice taken of the pixel array')
+    return t1 + '\n\n' + t2 + '\n\n' + t3, span_sha([st_t, st_s, arrs[0]])
+
+
+TARGETS['TC03segvol'] = {'file': 'seg/sop.py', 'build': lambda tree: _volume_slicing(tree, 'Segmentation.get_volume', 'seg')}
+TARGETS['TC03imgvol'] = {'file': 'image.py', 'build': lambda tree: _volume_slicing(tree, 'Image.get_volume', 'img')}
+
+
+def build_stack(tree):
+    """`_Image._get_stacked_volume_geometry`: the slice taken of the geometry and the frame filter / output slot"""
+    fn = find_func(tree, '_Image._get_stacked_volume_geometry')
+    gs = [s for s in ast.walk(fn) if isinstance(s, ast.Assign) and ast.unparse(s.targets[0]) == 'geometry'
+          and isinstance(s.value, ast.Subscript) and ast.unparse(s.value.value) == 'geometry']
+    if len(gs) != 1 or not isinstance(gs[0].value.slice, ast.Slice) or gs[0].value.slice.step is not None \
+            or gs[0].value.slice.lower is None or gs[0].value.slice.upper is None:
+        raise Unsupported('geometry = geometry[a:b] not found in _get_stacked_volume_geometry')
+    sl = gs[0].value.slice
+    r1 = ast.Return(value=ast.Tuple(elts=[sl.lower, sl.upper], ctx=ast.Load()))
+    loops = [n for n in ast.walk(fn) if isinstance(n, ast.For) and 'volume_positions' in ast.unparse(n.iter)
+             and ast.unparse(n.target) == '(f, vol_pos)']
+    if len(loops) != 1 or len(loops[0].body) != 1 or not isinstance(loops[0].body[0], ast.If) or loops[0].body[0].orelse:
+        raise Unsupported('frame filter loop `for f, vol_pos in zip(frame_numbers, volume_positions)` not found')
+    iff = loops[0].body[0]
+    if ast.unparse(loops[0].iter) != 'zip(frame_numbers, volume_positions)':
+        raise Unsupported('frame filter loop no longer zips frame_numbers with volume_positions')
+    if len(iff.body) != 1 or not (isinstance(iff.body[0], ast.Expr) and isinstance(iff.body[0].value, ast.Call)
+                                  and ast.unparse(iff.body[0].value.func) == 'frame_positions.append'):
+        raise Unsupported('frame filter body is not frame_positions.append(...)')
+    arg = iff.body[0].value.args[0]
+    if not (isinstance(arg, ast.Tuple) and len(arg.elts) == 2 and ast.unparse(arg.elts[0]) == 'f'):
+        raise Unsupported('appended item is not (f, <slot>)')
+    r2 = ast.Return(value=ast.Tuple(elts=[iff.test, arg.elts[1]], ctx=ast.Load()))
+    nin = [s for s in ast.walk(fn) if isinstance(s, ast.Assign) and ast.unparse(s.targets[0]) == 'initial_number_of_slices']
+    if len(nin) != 1 or ast.unparse(nin[0].value) != 'max(volume_positions) + 1':
+        raise Unsupported('initial_number_of_slices = max(volume_positions) + 1 not found')
+    r3 = ast.Return(value=ast.parse('max_volume_position + 1').body[0].value)
+    oi = [s for s in ast.walk(fn) if isinstance(s, ast.Assign) and ast.unparse(s.targets[0]) == 'origin_slice_index']
+    if len(oi) != 1 or ast.unparse(oi[0].value) != 'volume_positions.index(0)':
+        raise Unsupported('origin_slice_index = volume_positions.index(0) not found')
+    for r in (r1, r2, r3):
+        ast.fix_missing_locations(r)
+    t1 = translate_block([r1], 'stackGeomSlice', [('slice_start', 'int'), ('slice_end', 'int')], {},
+                         doc='`_get_stacked_volume_geometry`: bounds of `geometry[a:b]`')
+    t2 = translate_block([r2], 'stackFrameSlot', [('vol_pos', 'int'), ('slice_start', 'int'), ('slice_end', 'int')], {},
+                         doc='`_get_stacked_volume_geometry`: (frame kept?, output slot) for a frame at volume position `vol_pos`')
+    t3 = translate_block([r3], 'stackInitialSlices', [('max_volume_position', 'int')], {},
+                         doc='`_get_stacked_volume_geometry`: number of slices before slicing, from `max(volume_positions)`; '
+                             'the origin is the frame at `volume_positions.index(0)` (checked textually)')
+    return t1 + '\n\n' + t2 + '\n\n' + t3, span_sha([gs[0], loops[0], nin[0], oi[0]])
+
+
+TARGETS['TC03stack'] = {'file': 'image.py', 'build': build_stack}
